@@ -660,6 +660,22 @@ func (ck *checker) check1(p jpref.Path, data any, enum bool) {
 			}
 			if !ok {
 				ck.v("jp.Expr.FirstNode", "not-a-member-of-get", class, cs, clip(strings.Join(textSet(got), " ")), t)
+			} else if totalOrder(want) {
+				// where the order of Get's results is defined (array traversal, listed union members) the
+				// node evaluators deliver the same sequence and FirstNode is its first element
+				c.Cover("gen-order-defined")
+				seq := func(vs []any) string {
+					out := make([]string, len(vs))
+					for i, v := range vs {
+						out[i] = treegen.Show(norm(v))
+					}
+					return strings.Join(out, " ")
+				}
+				if a, b := seq(gv), seq(got); a != b {
+					ck.v("jp.Expr.GetNodes", "order-differs-from-get", class, cs, clip(b), clip(a))
+				} else if first := treegen.Show(norm(got[0])); t != first {
+					ck.v("jp.Expr.FirstNode", "not-the-first", class, cs, first, t)
+				}
 			}
 		}
 	}
